@@ -1,5 +1,235 @@
-/- Model for C14 (core Lean only, no Mathlib). -/
+/-
+Model for C14 — `odc.geo.math.Bin1D` and `odc.geo.gridspec.GridSpec` (core Lean only, no Mathlib).
+
+Every definition that performs float arithmetic in Python takes a rounding function
+`fl : Rat → Rat` applied after each primitive operation, in the order CPython evaluates it.
+
+* `fl := id`    exact arithmetic — the instance all theorems of `Props/C14.lean` are about;
+* `fl := fl64`  IEEE-754 binary64 round-to-nearest-even — the instance the driver additionally runs,
+                so that the model can be compared bit-for-bit with the real code on arbitrary doubles.
+
+Integers are `Int`, reals `Rat`, errors `Res`.  CRS handling (`norm_crs_or_error`, the
+`assert self.crs == bounds.crs` of `idx_bounds`, `to_crs` of the polygon query) is not part
+of this model (property C01 covers CRS mixing).
+-/
 import OdcGeo.Model.IO
+import OdcGeo.Model.Affine
 namespace OdcGeo.C14
+
+/-- rounding applied after each float operation -/
+abbrev Rnd := Rat → Rat
+
+/-! ### binary64 rounding (used by the driver only; validated against CPython each run) -/
+
+def pow2 (e : Int) : Rat :=
+  if 0 ≤ e then ((2 ^ e.toNat : Nat) : Rat) else 1 / ((2 ^ (-e).toNat : Nat) : Rat)
+
+def roundHalfEven (r : Rat) : Int :=
+  let f := r.floor
+  let rem := r - (f : Rat)
+  if rem < 1 / 2 then f else if 1 / 2 < rem then f + 1 else if f % 2 = 0 then f else f + 1
+
+/-- round-to-nearest, ties-to-even, 53 significant bits, gradual underflow; no overflow
+    (the harness never produces values near 1.8e308). -/
+def fl64 (q : Rat) : Rat :=
+  if q = 0 then 0 else
+  let a := if q < 0 then -q else q
+  let l : Int := (Nat.log2 a.num.natAbs : Int) - (Nat.log2 a.den : Int)
+  let e0 := l - 52
+  let s0 := a / pow2 e0
+  let e1 := if s0 < pow2 52 then e0 - 1 else if pow2 53 ≤ s0 then e0 + 1 else e0
+  let e := if e1 < -1074 then -1074 else e1
+  let m := roundHalfEven (a / pow2 e)
+  let r := (m : Rat) * pow2 e
+  if q < 0 then -r else r
+
+/-- `abs` on floats (exact) -/
+def rabs (q : Rat) : Rat := if q < 0 then -q else q
+
+/-! ### `Bin1D`  (odc/geo/math.py:568-637) -/
+
+structure Bin1D where
+  sz : Rat
+  origin : Rat
+  dir : Int
+  deriving DecidableEq, Repr
+
+/-- `Bin1D.__init__`: `assert direction in (-1, 1)`; `assert sz > 0`. -/
+def Bin1D.new (sz origin : Rat) (dir : Int) : Res Bin1D :=
+  if ¬ (dir = -1 ∨ dir = 1) then .error .assertion
+  else if ¬ (0 < sz) then .error .assertion
+  else .ok ⟨sz, origin, dir⟩
+
+/-- `Bin1D.__getitem__(idx)[0]`: `_x = idx * self.sz * self.direction + self.origin` -/
+def Bin1D.lo (fl : Rnd) (b : Bin1D) (k : Int) : Rat :=
+  fl (fl (fl ((k : Rat) * b.sz) * (b.dir : Rat)) + b.origin)
+
+/-- `Bin1D.__getitem__(idx)[1]`: `_x + self.sz` -/
+def Bin1D.hi (fl : Rnd) (b : Bin1D) (k : Int) : Rat :=
+  fl (b.lo fl k + b.sz)
+
+/-- `Bin1D.bin(x)`: `ix = floor((x - self.origin) / self.sz); int(self.direction * ix)` -/
+def Bin1D.bin (fl : Rnd) (b : Bin1D) (x : Rat) : Int :=
+  b.dir * (fl (fl (x - b.origin) / b.sz)).floor
+
+/-- `Bin1D.from_sample_bin(idx, (x0, x1), direction)` -/
+def Bin1D.fromSampleBin (fl : Rnd) (idx : Int) (x0 x1 : Rat) (dir : Int) : Res Bin1D :=
+  if ¬ (x0 < x1) then .error .assertion
+  else
+    let sz := fl (x1 - x0)
+    let origin := fl (x0 - fl (fl (sz * (idx : Rat)) * (dir : Rat)))
+    Bin1D.new sz origin dir
+
+/-! ### `GridSpec`  (odc/geo/gridspec.py) -/
+
+/-- `BoundingBox(left, bottom, right, top)`; iteration order is the same. -/
+structure BBox where
+  left : Rat
+  bottom : Rat
+  right : Rat
+  top : Rat
+  deriving DecidableEq, Repr
+
+/-- `GeoBox(shape, affine, crs)` — shape `(ny, nx)` and pixel→world affine. -/
+structure GeoBox where
+  ny : Int
+  nx : Int
+  aff : Aff
+  deriving DecidableEq, Repr
+
+structure GridSpec where
+  ny : Int
+  nx : Int
+  rx : Rat
+  ry : Rat
+  ox : Rat
+  oy : Rat
+  xbin : Bin1D
+  ybin : Bin1D
+  deriving DecidableEq, Repr
+
+def dirOf (flip : Bool) : Int := if flip then -1 else 1
+
+/-- `GridSpec.__init__` (gridspec.py:49-77): `tile_size = shape * abs(resolution)`,
+    `_ybin = Bin1D(tile_size.y, oy, -1 if flipy else 1)`, then `_xbin` likewise. -/
+def GridSpec.new (fl : Rnd) (ny nx : Int) (rx ry ox oy : Rat) (flipx flipy : Bool) : Res GridSpec := do
+  let tsx := fl ((nx : Rat) * rabs rx)
+  let tsy := fl ((ny : Rat) * rabs ry)
+  let ybin ← Bin1D.new tsy oy (dirOf flipy)
+  let xbin ← Bin1D.new tsx ox (dirOf flipx)
+  pure ⟨ny, nx, rx, ry, ox, oy, xbin, ybin⟩
+
+/-- `GridSpec.pt2idx(x, y)` → `(ix, iy)` -/
+def GridSpec.pt2idx (fl : Rnd) (g : GridSpec) (x y : Rat) : Int × Int :=
+  (g.xbin.bin fl x, g.ybin.bin fl y)
+
+/-- `GridSpec._tile_txy`: world location of pixel (0,0): left/right (bottom/top) edge of the bin
+    chosen by the sign of the resolution. -/
+def GridSpec.tileTxy (fl : Rnd) (g : GridSpec) (k : Int × Int) : Rat × Rat :=
+  let tx := if 0 < g.rx then g.xbin.lo fl k.1 else g.xbin.hi fl k.1
+  let ty := if 0 < g.ry then g.ybin.lo fl k.2 else g.ybin.hi fl k.2
+  (tx, ty)
+
+/-- `GridSpec.tile_geobox((ix, iy))` = `GeoBox(shape, Affine(rx, 0, tx, 0, ry, ty))` -/
+def GridSpec.tileGeobox (fl : Rnd) (g : GridSpec) (k : Int × Int) : GeoBox :=
+  let t := g.tileTxy fl k
+  ⟨g.ny, g.nx, ⟨g.rx, 0, t.1, 0, g.ry, t.2⟩⟩
+
+/-- `Affine.__matmul__((vx, vy))`: `vx*sa + vy*sb + sc`, `vx*sd + vy*se + sf`, rounded per operation. -/
+def applyF (fl : Rnd) (A : Aff) (p : Rat × Rat) : Rat × Rat :=
+  (fl (fl (fl (p.1 * A.a) + fl (p.2 * A.b)) + A.c), fl (fl (fl (p.1 * A.d) + fl (p.2 * A.e)) + A.f))
+
+/-- `GeoBox.boundingbox` = `BoundingBox.from_transform(shape, affine)`:
+    `p1 = A*(0,0)`, `p2 = A*(nx,ny)`, each coordinate pair sorted. -/
+def GeoBox.bbox (fl : Rnd) (gb : GeoBox) : BBox :=
+  let p1 := applyF fl gb.aff (0, 0)
+  let p2 := applyF fl gb.aff ((gb.nx : Rat), (gb.ny : Rat))
+  ⟨min p1.1 p2.1, min p1.2 p2.2, max p1.1 p2.1, max p1.2 p2.2⟩
+
+/-- `GeoBox.extent` for an affine geobox = `polygon_from_transform`: exterior ring
+    `(0,0),(0,ny),(nx,ny),(nx,0)` mapped through the affine. -/
+def GeoBox.extentPts (fl : Rnd) (gb : GeoBox) : List (Rat × Rat) :=
+  [((0 : Rat), (0 : Rat)), (0, (gb.ny : Rat)), ((gb.nx : Rat), (gb.ny : Rat)), ((gb.nx : Rat), 0)].map
+    (applyF fl gb.aff)
+
+/-- the literal `tol = 1e-8` of `idx_bounds`: exact value of that double -/
+def tol8 : Rat := 3022314549036573 / 302231454903657293676544
+
+/-- `GridSpec.idx_bounds(bounds)` with the tolerance as a parameter (the code uses `tol8`):
+    `(ix1, iy1, ix2, iy2)` meaning `[ix1, ix2) × [iy1, iy2)`. -/
+def GridSpec.idxBounds (fl : Rnd) (tol : Rat) (g : GridSpec) (q : BBox) : Int × Int × Int × Int :=
+  let i1 := g.pt2idx fl (fl (q.left + tol)) (fl (q.bottom + tol))
+  let i2 := g.pt2idx fl (fl (q.right - tol)) (fl (q.top - tol))
+  (min i1.1 i2.1, min i1.2 i2.2, max i1.1 i2.1 + 1, max i1.2 i2.2 + 1)
+
+/-- `range(a, b)` over Python ints -/
+def rangeI (a b : Int) : List Int := (List.range (b - a).toNat).map (fun (i : Nat) => a + (i : Int))
+
+/-- `GridSpec.tiles(bounds)`: indices in the order the generator yields them
+    (`for iy in range(iy1, iy2): for ix in range(ix1, ix2)`). -/
+def GridSpec.tiles (fl : Rnd) (tol : Rat) (g : GridSpec) (q : BBox) : List (Int × Int) :=
+  let r := g.idxBounds fl tol q
+  (rangeI r.2.1 r.2.2.2).flatMap (fun iy => (rangeI r.1 r.2.2.1).map (fun ix => (ix, iy)))
+
+/-- `GridSpec.tiles_from_geopolygon(poly)` after `to_crs`: `q` is `poly.boundingbox`,
+    `disjoint gb` stands for shapely's `poly.disjoint(gb.extent)`. -/
+def GridSpec.tilesFromPolygon (fl : Rnd) (tol : Rat) (g : GridSpec) (q : BBox)
+    (disjoint : GeoBox → Bool) : List (Int × Int) :=
+  (g.tiles fl tol q).filter (fun k => !disjoint (g.tileGeobox fl k))
+
+/-- `GridSpec.from_sample_tile(box, shape=(ny,nx), idx=(ix,iy), flipx, flipy)`; `q = box.boundingbox`.
+    Error order as in the code: shape sentinel, x-bin assert, y-bin assert, divisions, constructor. -/
+def GridSpec.fromSampleTile (fl : Rnd) (q : BBox) (ny nx : Int) (ix iy : Int) (flipx flipy : Bool) :
+    Res GridSpec := do
+  if ny = -1 ∧ nx = -1 then throw .valueError
+  let xbin ← Bin1D.fromSampleBin fl ix q.left q.right (dirOf flipx)
+  let ybin ← Bin1D.fromSampleBin fl iy q.bottom q.top (dirOf flipy)
+  if ny = 0 then throw .zeroDiv
+  let ry := fl (-ybin.sz / (ny : Rat))
+  if nx = 0 then throw .zeroDiv
+  let rx := fl (xbin.sz / (nx : Rat))
+  GridSpec.new fl ny nx rx ry xbin.origin ybin.origin flipx flipy
+
+/-- `geom.box(l, b, r, t).boundingbox` = shapely bounds of the four corners. -/
+def boxBounds (l b r t : Rat) : BBox := ⟨min l r, min b t, max l r, max b t⟩
+
+/-- `GridSpec.web_tiles(zoom, npix)`; `P` is the double `math.pi * 6378137`.
+    `tsz = pi*R*(2**(1-zoom))`; `tile0 = box(-P, P - tsz, -P + tsz, P)`; `flipy=True`. -/
+def GridSpec.webTiles (fl : Rnd) (P : Rat) (zoom : Int) (npix : Int) : Res GridSpec :=
+  let tsz := fl (P * pow2 (1 - zoom))
+  let x := -P
+  let y := P
+  GridSpec.fromSampleTile fl (boxBounds x (fl (y - tsz)) (fl (x + tsz)) y) npix npix 0 0 false true
+
+/-! ### Vocabulary of the theorems (propositions, not code) -/
+
+/-- closed rectangle -/
+def BBox.memClosed (b : BBox) (p : Rat × Rat) : Prop :=
+  b.left ≤ p.1 ∧ p.1 ≤ b.right ∧ b.bottom ≤ p.2 ∧ p.2 ≤ b.top
+
+/-- open rectangle (interior) -/
+def BBox.memInterior (b : BBox) (p : Rat × Rat) : Prop :=
+  b.left < p.1 ∧ p.1 < b.right ∧ b.bottom < p.2 ∧ p.2 < b.top
+
+/-- rectangle closed on the left/bottom, open on the right/top (in world coordinates) -/
+def BBox.memHalfOpen (b : BBox) (p : Rat × Rat) : Prop :=
+  b.left ≤ p.1 ∧ p.1 < b.right ∧ b.bottom ≤ p.2 ∧ p.2 < b.top
+
+/-- the footprint of a GeoBox as a point set: image of the pixel rectangle `[0,nx]×[0,ny]`
+    under the pixel→world affine -/
+def GeoBox.covers (gb : GeoBox) (p : Rat × Rat) : Prop :=
+  ∃ u v : Rat, 0 ≤ u ∧ u ≤ (gb.nx : Rat) ∧ 0 ≤ v ∧ v ≤ (gb.ny : Rat) ∧ gb.aff.apply (u, v) = p
+
+/-- footprint (bounding box, exact arithmetic) of tile `k` of grid `g` -/
+def GridSpec.footprint (g : GridSpec) (k : Int × Int) : BBox := (g.tileGeobox id k).bbox id
+
+/-- index `k` lies in the closed/open index rectangle `(x1, y1, x2, y2)` returned by `idx_bounds` -/
+def inRange (r : Int × Int × Int × Int) (k : Int × Int) : Prop :=
+  r.1 ≤ k.1 ∧ k.1 < r.2.2.1 ∧ r.2.1 ≤ k.2 ∧ k.2 < r.2.2.2
+
+/-- `1-D` well-formedness established by `Bin1D.new` -/
+structure Bin1D.WF (b : Bin1D) : Prop where
+  sz_pos : 0 < b.sz
+  dir : b.dir = 1 ∨ b.dir = -1
 
 end OdcGeo.C14
